@@ -1,14 +1,24 @@
 /* R10: std::atomic<T> members under SEQUENTIAL semantics.
- *   x.load(mo)        -> IORA_ALOAD(x, mo)        plain read
- *   x.store(v, mo)    -> IORA_ASTORE(x, v, mo)    plain write
- *   x.exchange(v, mo) -> IORA_AXCHG_BOOL(x, v, mo)  read-then-write, one step
- * The memory-order argument is kept in the extracted text (so it is visible in .work/<unit>/unit.c and in evidence)
- * and then DISCARDED: atomicity and inter-thread ordering are not modelled. Nothing proved through these macros says
- * anything about data races under the C++ memory model. */
+ *   x.load(mo)        -> IORA_ALOAD(x, G_ld.x, mo)         plain read
+ *   x.store(v, mo)    -> IORA_ASTORE(x, G_st.x, v, mo)     plain write
+ *   x.exchange(v, mo) -> IORA_AXCHG_BOOL(x, v, mo)         read-then-write, one step
+ * Atomicity and inter-thread ordering are NOT modelled: nothing proved through these macros decides data-race freedom under the
+ * C++ memory model. The memory-order argument is kept in the extracted text (visible in .work/<unit>/unit.c) and recorded in the
+ * unit's ghost records G_ld / G_st (one int field per atomic member: the order of the LAST load / store in this operation), so that
+ * a unit can state an ordering DISCIPLINE ("a slot is written only after an acquire load of _tail") as an ordinary obligation. */
 #ifndef IORA_ATOMIC_H
 #define IORA_ATOMIC_H
-#define IORA_ALOAD(x, mo) (x)
-#define IORA_ASTORE(x, v, mo) ((x) = (v))
+#define IORA_MO_NONE (-1)
+#define IORA_MO_memory_order_relaxed 0
+#define IORA_MO_memory_order_consume 1
+#define IORA_MO_memory_order_acquire 2
+#define IORA_MO_memory_order_release 3
+#define IORA_MO_memory_order_acq_rel 4
+#define IORA_MO_memory_order_seq_cst 5
+#define IORA_MO_IS_ACQUIRE(o) ((o) == 2 || (o) == 4 || (o) == 5)
+#define IORA_MO_IS_RELEASE(o) ((o) == 3 || (o) == 4 || (o) == 5)
+#define IORA_ALOAD(x, g, mo) ((g) = IORA_MO_##mo, (x))
+#define IORA_ASTORE(x, g, v, mo) ((g) = IORA_MO_##mo, (x) = (v))
 static inline bool iora_axchg_bool(bool *x, bool v) { bool o = *x; *x = v; return o; }
 #define IORA_AXCHG_BOOL(x, v, mo) iora_axchg_bool(&(x), (v))
 #endif
